@@ -173,7 +173,7 @@ func nilTestOfOperandsIn(info *types.Info, body *ast.BlockStmt, stmt ast.Node) f
 				used[types.ExprString(ast.Unparen(e))] = true
 			}
 			if id, ok := n.(*ast.Ident); ok && body != nil {
-				if v, ok := info.Uses[id].(*types.Var); ok && !v.IsField() && !vars[v] && body.Pos() <= v.Pos() && v.Pos() <= body.End() {
+				if v, ok := info.Uses[id].(*types.Var); ok && !v.IsField() && !vars[v] && declaredWithin(info, body, v) {
 					vars[v] = true
 					ast.Inspect(body, func(m ast.Node) bool {
 						if as, ok := m.(*ast.AssignStmt); ok && as.End() <= stmt.Pos() {
